@@ -231,7 +231,8 @@ bool FIXReader::read(f8String& to)	// read a complete FIX message
 			if (*tag != '8' || tag[1])
 				throw IllegalMessage(to, FILE_LINE);
 
-			if (_session.get_ctx()._beginStr.compare(val))	// invalid FIX version
+			// invalid FIX version; the value may hold a NUL byte, so its length (element less "8=" and the separator) counts as well
+			if (result - 3 != _session.get_ctx()._beginStr.size() || _session.get_ctx()._beginStr.compare(val))
 				throw InvalidVersion(string(val));
 
 			if ((result = MessageBase::extract_element(to.data() + result, static_cast<unsigned>(to.size()) - result, tag, val)))
